@@ -12,6 +12,7 @@
    and returns exactly the bytes behind the head -- the statements C01/C02 prove for Model/Head.v. *)
 From SV Require Import Base.Bytes Base.BytesP Model.Headers Proofs.HeadersP Model.RustStr
      Proofs.RustStrP Model.Request Spec.Framing Proofs.RequestP Proofs.StreamP Proofs.FramingP.
+From SV Require Import Generated.SourceParams Tie.ContentTypeTie.
 From SV Require Model.Head Spec.Rfc7230.
 From SV Require Import Base.IO Model.PipelineInst Proofs.PipelineInstP.
 
@@ -369,6 +370,13 @@ Proof.
   - split; vm_compute; reflexivity.
 Qed.
 
+(* C03.src  the arms of ContentType::parse, re-read from src/content_type.rs ON THIS RUN, are the
+   entries of the model's media-type table, in order *)
+Theorem c03_source_content_type_parse_table :
+  map (fun e => (fst e, option_map ctype_tag (name_lookup (snd e) ct_names))) src_ct_parse_table
+  = map (fun e => (fst e, Some (ctype_tag (snd e)))) ct_table.
+Proof. exact ct_parse_table_tie. Qed.
+
 Print Assumptions c03_framing_agrees.
 Print Assumptions c03_request_is_function_of_head.
 Print Assumptions c03_framing_never_ignored.
@@ -400,3 +408,4 @@ Print Assumptions c03_concrete_reader_inverts_renderer.
 Print Assumptions c03_pipeline_roundtrip_concrete_head_spec.
 Print Assumptions c03_concrete_loop_is_schedule_free.
 Print Assumptions c03_pipeline_roundtrip_concrete.
+Print Assumptions c03_source_content_type_parse_table.
